@@ -53,13 +53,14 @@ def region_codes(hexs, bw, big):
     return out
 
 
-def model_script(script_text, hl):
+def model_script(script_text, hl, lim_from_ret=False):
     """Build the model driver input from the script and the harness transcript (open parameters, external
     store contents).  Returns (text, modelled line numbers)."""
     out = []
     modelled = set()
     handle_ok = {}
     hvirtual = {}
+    hch = {}
     external = {}     # sid -> True when content was set outside the library since the model last knew it
     for ln, raw in enumerate(script_text.split("\n"), 1):
         t = raw.split()
@@ -99,6 +100,7 @@ def model_script(script_text, hl):
             external[sid] = False
             out.append("mopen %d %d %d %d %s %s" % (ln, h, sid, MODE[mode], f["ch"], enc))
             handle_ok[h] = True
+            hch[h] = int(f["ch"])
             hvirtual[h] = virtual
             modelled.add(ln)
         elif op == "close":
@@ -111,6 +113,10 @@ def model_script(script_text, hl):
             if not handle_ok.get(h):
                 continue
             lim = 1 << 40
+            if lim_from_ret and ln in hl and "ret" in hl[ln][1]:
+                # fault runs: the codec's transfer count is whatever the I/O layer allowed; the model is driven by the observed count
+                r = int(hl[ln][1]["ret"])
+                lim = r * hch.get(h, 1) if t[3] == "f" else r
             out.append("m%s %d %d %s %s %s %d %s" % (op, ln, h, t[2], t[3], t[4], lim, " ".join(t[5:])))
             modelled.add(ln)
         elif op == "seek":
@@ -197,7 +203,7 @@ def compare(script_text, hl, ml, ignore=()):
     return n, bad
 
 
-def s_tie(ctx, name, script_text, rule, key=None, ignore=(), require_clean=True):
+def s_tie(ctx, name, script_text, rule, key=None, ignore=(), require_clean=True, lim_from_ret=False):
     """Run script on implementation and model, record the tie, report mismatches as violations.
     Returns (harness lines, model lines, mismatches)."""
     rc, hl, err = run_harness(script_text, ctx.pid + "_" + name)
@@ -208,7 +214,7 @@ def s_tie(ctx, name, script_text, rule, key=None, ignore=(), require_clean=True)
         ctx.violation(key + ":sanitizer", "implementation run of %s ended with rc=%d: %s" % (name, rc, " | ".join(first[:3])[:400]),
                       "script:\n%s\n\nstderr:\n%s" % (script_text[-6000:], err[-6000:]))
         return hl, {}, []
-    mtext, modelled = model_script(script_text, hl)
+    mtext, modelled = model_script(script_text, hl, lim_from_ret)
     rc2, ml, mout, merr = run_model(mtext, ctx.pid + "_" + name)
     if rc2 != 0 or "DONE" not in mout:
         ctx.violation(key + ":model", "model driver failed on %s: %s" % (name, (mout + merr)[-400:]), mtext[-4000:], found_input=False)
